@@ -253,21 +253,61 @@ theorem compileExpr_noMarks (sc : Scope) : ∀ (e : Expr) (c : List Instr), noCa
   | .coalesce .., _, hn, _ | .call .., _, hn, _ | .array .., _, hn, _ | .dict .., _, hn, _ | .index .., _, hn, _
   | .member .., _, hn, _ | .mcall .., _, hn, _ => by simp [noCall] at hn
 
+/-- code of a call-free argument list contains no loop placeholders -/
+theorem compileArgs_noMarks (sc : Scope) : ∀ (es : List Expr) (c : List Instr), es.all noCall = true →
+    compileExpr.compileArgs sc es = some c → noMarks c = true
+  | [], c, _, h => by simp only [compileExpr.compileArgs, Option.some.injEq] at h; subst h; rfl
+  | e :: es, c, hn, h => by
+    simp only [List.all_cons, Bool.and_eq_true] at hn
+    cases he : compileExpr sc e with
+    | none => simp [compileExpr.compileArgs, he] at h
+    | some ce =>
+      cases hes : compileExpr.compileArgs sc es with
+      | none => simp [compileExpr.compileArgs, he, hes] at h
+      | some ces =>
+        simp only [compileExpr.compileArgs, he, hes, Option.bind_eq_bind, Option.bind_some, Option.some.injEq] at h
+        subst h
+        rw [noMarks_append, compileExpr_noMarks sc e ce hn.1 he, compileArgs_noMarks sc es ces hn.2 hes]; rfl
+
+/-- expressions allowed in statement position in the fragment with calls: call-free, or one
+invocation whose arguments are call-free -/
+def simpleE : Expr → Bool
+  | .call _ args => args.all noCall
+  | e => noCall e
+
+theorem simpleE_noMarks (sc : Scope) (e : Expr) (c : List Instr) (hs : simpleE e = true)
+    (h : compileExpr sc e = some c) : noMarks c = true := by
+  cases e with
+  | call f args =>
+    simp only [simpleE] at hs
+    cases ha : compileExpr.compileArgs sc args with
+    | none => simp [compileExpr, ha] at h
+    | some cas =>
+      simp only [compileExpr, ha, Option.bind_eq_bind, Option.bind_some, Option.some.injEq] at h
+      subst h
+      rw [noMarks_append, compileArgs_noMarks sc args cas hs ha]; rfl
+  | _ => exact compileExpr_noMarks sc _ c (by simpa [simpleE] using hs) h
+
 mutual
-/-- call-free statements of L0 (the forms `compileStmt` accepts, with call-free expressions) -/
-def noCallS : Stmt → Bool
-  | .decl _ _ _ e => noCall e
-  | .assign (.var _) _ e => noCall e
-  | .ite c t e => noCall c && noCallB t && (match e with | none => true | some eb => noCallB eb)
-  | .while c b => noCall c && noCallB b
+/-- statements of L0 that `compileStmt` accepts, whose conditions are call-free and whose other
+expressions satisfy `okE` -/
+def okS (okE : Expr → Bool) : Stmt → Bool
+  | .decl _ _ _ e => okE e
+  | .assign (.var _) _ e => okE e
+  | .ite c t e => noCall c && okB okE t && (match e with | none => true | some eb => okB okE eb)
+  | .while c b => noCall c && okB okE b
   | .break_ | .continue_ | .ret none => true
-  | .ret (some e) => noCall e
-  | .expr e => noCall e
+  | .ret (some e) => okE e
+  | .expr e => okE e
   | _ => false
-def noCallB : List Stmt → Bool
+def okB (okE : Expr → Bool) : List Stmt → Bool
   | [] => true
-  | s :: r => noCallS s && noCallB r
+  | s :: r => okS okE s && okB okE r
 end
+
+/-- call-free statements -/
+abbrev noCallS : Stmt → Bool := okS noCall
+abbrev noCallB : List Stmt → Bool := okB noCall
 
 mutual
 /-- slots are allocated upwards -/
